@@ -474,6 +474,49 @@ class ConcMem(Conc):
         self.sched = LineSched(line_targets=[MemBroker])
 
 
+class ConcShared(Conc):
+    """one SQLite app and ONE broker object shared by several threads of a process (two thread runners of an app, a runner and the
+    monitor): whatever the object keeps between calls is shared by them"""
+
+    def __init__(self, ctx_tmp: str, app_id: str, nthreads: int):
+        self.app = make_app("sqlite", ctx_tmp, app_id=app_id)
+        self.main = self.app.broker
+        self.brokers = [self.main] * nthreads
+        self.sched = SqlSched()
+
+
+def concurrent_shared_object(ctx: Ctx) -> None:
+    """exactly-once / FIFO for threads that share one SQLite broker OBJECT: every interleaving of their SQL statements up to a
+    pre-emption bound; conservation and a sequential FIFO witness"""
+    scen = [
+        ("two-retrievers", ["m1", "m2", "m3", "m4"], [[("retrieve",), ("retrieve",)], [("retrieve",)]]),
+        ("retriever-and-router", ["m1", "m2"], [[("retrieve",), ("retrieve",)], [("route", "n1"), ("retrieve",)]]),
+        ("count-vs-retrieve", ["m1", "m2"], [[("count",), ("retrieve",)], [("retrieve",), ("count",)]]),
+    ]
+    c = ConcShared(ctx.tmp, "c08shared", 2)
+    c.sched.install()
+    n = 0
+    try:
+        for name, init, programs in scen:
+            for run in explore(lambda ch: _run_keep(c, init, programs, ch), 2, 60 if ctx.quick else 600):
+                hist, remaining = run._c08  # type: ignore[attr-defined]
+                n += 1
+                ctx.count()
+                ctx.distinct(("conc-shared", name, tuple(run.choices)))
+                replay = {"kind": "concurrent-shared-object", "scenario": name, "init": init, "programs": [[list(o) for o in p] for p in programs], "schedule": run.choices,
+                          "history": [[t, list(o), r, a, b] for t, o, r, a, b in hist], "remaining": remaining}
+                v = judge_history(init, programs, run, hist, remaining)
+                if v:
+                    ctx.report(f"sqlite-shared-object:{v[0]}", f"[sqlite, one broker object, 2 threads, scenario {name}] {v[1]}; schedule {run.choices}", replay)
+                    continue
+                if linearize(init, expand(hist), remaining) is None:
+                    ctx.report("sqlite-shared-object:not-linearizable", f"[sqlite, one broker object, 2 threads, scenario {name}] no sequential FIFO order explains the results "
+                                                                        f"{[(t, o, r) for t, o, r, _, _ in hist]} + remaining {remaining}; schedule {run.choices}", replay)
+    finally:
+        c.sched.uninstall()
+    ctx.notes["concurrent_shared_object_schedules"] = n
+
+
 def concurrent_mem(ctx: Ctx) -> None:
     """exactly-once / FIFO under concurrent retrievers and routers of the IN-MEMORY broker: every interleaving of its source lines up
     to a pre-emption bound; judged by conservation and by the existence of a sequential FIFO order"""
@@ -767,6 +810,7 @@ def run(ctx: Ctx) -> None:
         interrupted_operations(ctx)
         concurrent_part(ctx, drv)
         concurrent_mem(ctx)
+        concurrent_shared_object(ctx)
         adversarial_app_ids(ctx)
         ctx.sample({"kind": "concurrent", "scenario": SCENARIOS_2[0][0], "init": SCENARIOS_2[0][1], "programs": SCENARIOS_2[0][2]})
     finally:
